@@ -296,6 +296,10 @@ def run(rep, facts, tier):
     for cfg in ('default', 'security'):
         if cfg in facts:
             rule_11_12(rep, facts[cfg], cfg)
+    for cfg in ('default', 'security'):
+        if cfg in facts:
+            rule_11_13(rep, facts[cfg], cfg)
+    rule_11_14(rep, fx)
 
     # the attic helper must move all endpoints of the participant (shared with C12 R12.7; added after seed C11e: an entry left behind in the attic is restored later in place
     # of / in addition to the live one, so a disposed endpoint is matched again and a lost participant's endpoint stays announced)
@@ -433,3 +437,309 @@ def rule_11_12(rep, fx, cfg):
         rep.check(ok, 'R11.12', '%s/%s/hands-over' % (cfg, fn), 'same topic => %s on every path%s' % (callee, ' (except incompatible security)' if cfg == 'security' else ''),
                   '%s [%s features]: a local endpoint on the topic of the discovered remote endpoint can be skipped without %s although nothing speaks against the match '
                   '(no incompatible security configuration on that path): the remote endpoint is announced and compatible but never matched' % (fn, cfg, callee), b.where())
+
+
+# ----------------------------------------------------------------------------- R11.13 / R11.14 (added after mutation round 4)
+
+def _places(x):
+    """All (local, projection) pairs mentioned in an rvalue / operand JSON, with the tuple index for aggregate operands."""
+    out = []
+    if isinstance(x, dict):
+        if 'l' in x and isinstance(x['l'], int):
+            out.append((x['l'], x.get('p') or []))
+        for k, v in x.items():
+            if k != 'l':
+                out.extend(_places(v))
+    elif isinstance(x, list):
+        for v in x:
+            out.extend(_places(v))
+    return out
+
+
+def _flows(body, src):
+    """Locals (with an optional first tuple field) that may hold the value of local `src` or something derived from it: forward closure over assignments and calls,
+    sensitive to the first field of tuples so that `(a, b)` built and taken apart again keeps a and b separate. Over-approximate on calls (any tainted argument taints the result)."""
+    taint = {(src, None)}
+
+    def tainted(l, proj):
+        if (l, None) in taint:
+            return True
+        f = next((p['f'] for p in proj if isinstance(p, dict) and 'f' in p), None)
+        for (tl, tf) in taint:
+            if tl == l and tf is not None and (f is None or f == tf):
+                return True
+        return False
+    changed = True
+    while changed:
+        changed = False
+        for bb in sorted(body.live_blocks()):
+            blk = body.blocks[bb]
+            for st in blk['st']:
+                if st.get('s') != 'assign':
+                    continue
+                lhs = st['lhs']
+                if any(p == '*' for p in (lhs.get('p') or [])):
+                    continue
+                rv = st['rv']
+                new = set()
+                if rv.get('r') == 'agg' and rv.get('kind') == 'tuple' and not lhs.get('p'):
+                    for i, op in enumerate(rv.get('ops', [])):
+                        if any(tainted(l, p) for l, p in _places(op)):
+                            new.add((lhs['l'], i))
+                elif any(tainted(l, p) for l, p in _places(rv)):
+                    new.add((lhs['l'], None))
+                if new - taint:
+                    taint |= new
+                    changed = True
+            t = blk['term']
+            if t['t'] == 'call' and t.get('dest') and any(tainted(l, p) for a in t['args'] for l, p in _places(a)):
+                d = (t['dest']['l'], None)
+                if d not in taint:
+                    taint.add(d)
+                    changed = True
+    return taint
+
+
+BUILTIN_TABLE = {
+    # authentication status of the remote participant -> built-in endpoint lists matched (DDS Security 8.8.2.1 and 8.8.2.2; RTPS 8.5.4.2 without security)
+    'no-plugins': {'STANDARD'},
+    'Authenticating': {'AUTHENTICATION'},
+    'Authenticated': {'STANDARD', 'SECURE'},
+    'Unauthenticated': {'STANDARD'},
+    'other': set(),
+}
+
+
+def rule_11_13(rep, fx, cfg):
+    if cfg == 'default':
+        rep.rule('R11.13', 'built-in endpoints follow the participant announcement: DPEventLoop::update_participant hands every entry of the selected built-in endpoint lists to the local '
+                           'writer (update_reader_proxy) / reader (update_writer_proxy) of that entry whenever the announced available_builtin_endpoints contains its flag, with the '
+                           'metatraffic locators; the *_READERS_* lists go to the writers loop and the *_WRITERS_* lists to the readers loop; without security (or without plugins) the lists '
+                           'are the STANDARD ones, with plugins they are selected by the authentication status: Authenticating -> AUTHENTICATION only, Authenticated -> STANDARD + SECURE, '
+                           'Unauthenticated -> STANDARD, Rejected / unknown -> none')
+    b = fx.find('rtps::dp_event_loop::DPEventLoop::update_participant')
+    rep.analysed(b)
+    og = Origins(b, summaries=True)
+    P = Pos(b)
+    edges = list(switch_edges(b, fx, og))
+    where = b.where()
+    sides = (('readers', 'Writer::update_reader_proxy', 'as_reader_proxy', 'writers', 0, 1), ('writers', 'Reader::update_writer_proxy', 'as_writer_proxy', 'available_readers', 1, 0))
+    upd = {}
+    for role, callee, _mk, _coll, _k, _e in sides:
+        upd[role] = [(bb, t) for bb, t in b.calls() if call_matches(t, callee)]
+        rep.check(len(upd[role]) == 1, 'R11.13', '%s/update_participant/%s-loop' % (cfg, role), 'one %s call' % callee,
+                  'update_participant [%s features] does not call %s exactly once in a loop over the built-in endpoint list: the built-in %s of a discovered participant are never matched, '
+                  'so nothing of SEDP reaches it' % (cfg, callee, role), where)
+    if any(len(v) != 1 for v in upd.values()):
+        return
+    # --- list selection
+    fills = []   # (bb, list local, const family, const role)
+    for bb, t in b.calls():
+        c = callee_res(t)
+        if not c.endswith(('::extend_from_slice', '::to_vec', '::extend', '::to_owned')):
+            continue
+        consts = [x for a in t['args'] for x in term_leaves(og.of_operand(a, bb, 'term')) if x[0] == 'const' and isinstance(x[-1], str) and x[-1].endswith('_INIT_LIST')] \
+            if False else []
+        names = []
+        for a in t['args']:
+            s = term_str(og.of_operand(a, bb, 'term'))
+            for w in s.replace('(', ' ').replace(')', ' ').replace('|', ' ').split():
+                if w.endswith('_INIT_LIST'):
+                    names.append(w.rsplit('::', 1)[-1])
+        if not names:
+            continue
+        if c.endswith(('::to_vec', '::to_owned')):
+            lst = t['dest']['l']
+        else:
+            # receiver: `&mut list` built in the same block
+            a0 = t['args'][0].get('pl', {}).get('l')
+            lst = None
+            for st in b.blocks[bb]['st']:
+                if st.get('s') == 'assign' and st['lhs'].get('l') == a0 and st['rv'].get('r') == 'ref' and not st['rv']['pl'].get('p'):
+                    lst = st['rv']['pl']['l']
+        for n in names:
+            fam = n.split('_BUILTIN_')[0]
+            crole = 'readers' if '_READERS_' in n else 'writers' if '_WRITERS_' in n else '?'
+            fills.append((bb, lst, fam, crole))
+    floor = 2
+    if len(fills) < floor:
+        raise CheckBroken('R11.13: %d built-in list selections found in update_participant [%s], expected at least %d' % (len(fills), cfg, floor))
+    # role of each list local: which update call it reaches
+    role_of = {}
+    for lst in set(f[1] for f in fills):
+        if lst is None:
+            continue
+        tn = _flows(b, lst)
+        reached = set()
+        for role in upd:
+            bb, t = upd[role][0]
+            if any((l, None) in tn or any(tl == l for tl, _f in tn) for a in t['args'] for l, _p in _places(a)):
+                reached.add(role)
+        role_of[lst] = reached
+    by_kind = {}
+    for bb, lst, fam, crole in fills:
+        by_kind.setdefault((fam, crole), []).append(role_of.get(lst, set()))
+    for (fam, crole), rs in sorted(by_kind.items()):
+        bad = [r for r in rs if r != {crole}]
+        rep.check(not bad, 'R11.13', '%s/update_participant/%s-%s-list-role' % (cfg, fam, crole), 'list filled from %s_%s feeds the %s loop only' % (fam, crole.upper(), crole),
+                  'update_participant [%s features]: the %s_BUILTIN_%s_INIT_LIST entries are put into a list that feeds %s: remote built-in %s would be matched to the wrong '
+                  'kind of local endpoint' % (cfg, fam, crole.upper(), (' and '.join(sorted(bad[0])) + ' loop') if bad and bad[0] else 'no matching loop', crole), where)
+    # arms
+    first_loop = min(bb for role in upd for bb, _t in upd[role])
+    into = [bb for bb, t in b.calls() if callee_res(t).endswith('::into_iter')]
+    join = min(into) if into else first_loop
+
+    def fams_from(start_bb):
+        reach = b.reachable(start_bb, avoid_blocks=[join]) | {start_bb}
+        got = {}
+        for bb, lst, fam, crole in fills:
+            if bb in reach:
+                got.setdefault(fam, set()).add(crole)
+        return got, reach
+    arms = {}
+    if cfg == 'default':
+        arms['no-plugins'] = 0
+    else:
+        for s_, t_, cond, lab in edges:
+            if cond[0] == 'discr' and has_field(cond, 'security_plugins_opt') and lab == 'None':
+                arms['no-plugins'] = t_
+            if cond[0] == 'discr' and term_has(cond, lambda x: x[0] == 'call' and x[1].endswith('get_authentication_status')):
+                if lab in ('Authenticating', 'Authenticated', 'Unauthenticated'):
+                    arms[lab] = t_
+                elif isinstance(lab, tuple) and lab[0] == 'not' and any(v in lab[1] for v in ('Authenticated', 'Authenticating', 'Unauthenticated')):
+                    arms['other'] = t_
+                elif lab in ('Rejected',):
+                    arms['other'] = t_
+        missing = [k for k in BUILTIN_TABLE if k not in arms]
+        if missing:
+            raise CheckBroken('R11.13: arms %s of the built-in endpoint selection not found in update_participant [security]' % missing)
+    for arm, t_ in sorted(arms.items()):
+        got, reach = fams_from(t_)
+        want = BUILTIN_TABLE[arm]
+        ok = set(got) == want and all(v == {'readers', 'writers'} for v in got.values())
+        # every path of the arm passes each of its fills
+        for bb, lst, fam, crole in fills:
+            if bb in reach and fam in want and ok:
+                if not P.every_path_passes((t_, 0), (join, 0), via_pos=[(bb, 'term')], from_entry=(t_ == 0)) and bb != t_:
+                    ok = False
+        rep.check(ok, 'R11.13', '%s/update_participant/%s' % (cfg, arm), '%s -> %s' % (arm, ' + '.join(sorted(want)) or 'none'),
+                  'update_participant [%s features]: for a remote participant in state %s the built-in endpoint lists matched are %s, expected %s for both readers and writers '
+                  '(an Authenticating or Unauthenticated participant must not get the secure endpoints; an accepted one must get all of its kind, or discovery data never flows)'
+                  % (cfg, arm, {k: sorted(v) for k, v in sorted(got.items())} or 'none', sorted(want) or 'none'), where)
+    # --- the loops
+    for role, callee, mk, coll, kfield, efield in sides:
+        ubb, ut = upd[role][0]
+        nxt = [(nb, 'term') for nb, t in b.calls() if callee_res(t).endswith('::next') and
+               any(call_matches(t2, callee) and P.can_reach((nb, 'term'), (b2, 'term')) and P.can_reach((b2, 'term'), (nb, 'term')) for b2, t2 in [(ubb, ut)])]
+        some = [(s_, t_) for s_, t_, cond, lab in edges if lab == 'Some' and cond[0] == 'discr' and cond[1][0] == 'call' and cond[1][1].endswith('::next') and (s_, 'term') != None and
+                any(P.can_reach((t_, 0), (ubb, 'term'), avoid_pos=nxt) for _ in [0])]
+        skip_ok = [(s_, t_) for s_, t_, cond, lab in edges if
+                   (lab == 'None' and cond[0] == 'discr' and term_has(cond, lambda x: x[0] == 'call' and x[1].endswith('::get_mut')) and has_field(cond, coll)) or
+                   (lab is False and cond[0] == 'call' and cond[1].endswith('BuiltinEndpointSet::contains')) or
+                   (lab is True and cond[0] == 'un' and term_has(cond, lambda x: x[0] == 'call' and x[1].endswith('BuiltinEndpointSet::contains')))]
+        ok = bool(nxt) and bool(some) and len(skip_ok) >= 2
+        for s_, t_ in some:
+            for nb, _k in nxt:
+                if P.can_reach((t_, 0), (nb, 'term'), avoid_pos=[(ubb, 'term')], avoid_edges=skip_ok):
+                    ok = False
+        rep.check(ok, 'R11.13', '%s/update_participant/%s-loop/every-announced-entry' % (cfg, role), 'entry with local endpoint and announced flag => %s' % callee,
+                  'update_participant [%s features]: an entry of the %s list can be passed over without %s although the local endpoint exists and the participant announced the flag '
+                  '(the only reasons to skip an entry are a missing local endpoint and a flag that was not announced)' % (cfg, role, callee), where)
+        # the proxy is built with the metatraffic locators, for the entity id of the entry's other side; the local endpoint is looked up by the entry's own side
+        mks = [(bb, t) for bb, t in b.calls() if call_matches(t, mk) and P.can_reach((bb, 'term'), (ubb, 'term'))]
+        okp = len(mks) == 1
+        for bb, t in mks:
+            meta = og.of_operand(t['args'][1], bb, 'term')
+            okp = okp and meta[0] == 'const' and str(meta[-1]) in ('1', 'True', 'true')
+            eid = og.of_operand(t['args'][2], bb, 'term')
+            idx = [x[1] for x in _tuple_fields(eid)]
+            if idx:
+                okp = okp and idx[0] == str(efield)
+        recv = og.of_operand(ut['args'][0], ubb, 'term')
+        gm = [x for x in _subterms(recv) if x[0] == 'call' and x[1].endswith('::get_mut')]
+        for g in gm[:1]:
+            idx = [x[1] for x in _tuple_fields(g[2][1])] if len(g) > 2 and len(g[2]) > 1 else []
+            if idx:
+                okp = okp and idx[0] == str(kfield)
+        rep.check(okp, 'R11.13', '%s/update_participant/%s-loop/proxy' % (cfg, role), '%s(metatraffic, other side of the entry) for the local endpoint of the entry' % mk,
+                  'update_participant [%s features]: the proxy handed to %s is not built by %s with the metatraffic locators (second argument true) for the entity id on the other side of '
+                  'the list entry, or the local endpoint is not looked up by its own side of the entry: built-in traffic would go to the user-traffic ports or to the wrong entity'
+                  % (cfg, callee, mk), where)
+
+
+def _subterms(t):
+    out = [t]
+    for x in t[1:] if isinstance(t, tuple) else ():
+        if isinstance(x, tuple):
+            if x and isinstance(x[0], str):
+                out.extend(_subterms(x))
+            else:
+                for y in x:
+                    if isinstance(y, tuple):
+                        out.extend(_subterms(y))
+    return out
+
+
+def _tuple_fields(t):
+    """Outermost-first tuple-index field projections ('field', '0'|'1'|'2', base) applied directly to a loop element (`next(..) as Some`.0.<i>)."""
+    out = []
+    for x in _subterms(t):
+        if x[0] == 'field' and str(x[1]) in ('0', '1', '2') and isinstance(x[2], tuple) and x[2][0] == 'field' and str(x[2][1]) == '0' and \
+                isinstance(x[2][2], tuple) and x[2][2][0] == 'variant':
+            out.append(x)
+    return out
+
+
+def rule_11_14(rep, fx):
+    rep.rule('R11.14', 'a created endpoint is registered: DPEventLoop::add_local_reader passes the Reader built from the ingredients to MessageReceiver::add_reader on every returning path and '
+                       'add_reader inserts it into available_readers when the id is vacant; add_local_writer inserts the Writer built from the ingredients into writers under its own '
+                       'entity id on every returning path (an endpoint that is not registered is never matched and receives or serves nothing)')
+    ev = 'rtps::dp_event_loop::DPEventLoop::'
+    b = fx.find(ev + 'add_local_reader')
+    rep.analysed(b)
+    og = Origins(b, summaries=True)
+    P = Pos(b)
+    adds = [(bb, t) for bb, t in b.calls() if call_matches(t, 'MessageReceiver::add_reader')]
+    ok = bool(adds)
+    for bb, t in adds:
+        v = og.of_operand(t['args'][1], bb, 'term')
+        ok = ok and term_has(v, lambda x: x[0] == 'call' and x[1].endswith('Reader::new') ) and term_has(v, lambda x: x == ('param', 2))
+    for r in b.return_blocks():
+        if not P.every_path_passes(None, (r, 'term'), via_pos=[(bb, 'term') for bb, _t in adds], from_entry=True):
+            ok = False
+    rep.check(ok, 'R11.14', 'add_local_reader/registers', 'Reader::new(ingredients) -> add_reader on every path',
+              'add_local_reader can return without handing the new Reader to MessageReceiver::add_reader: the DataReader exists for the application but no message is ever dispatched to it '
+              'and no writer is matched with it', b.where())
+    a = fx.find('rtps::message_receiver::MessageReceiver::add_reader')
+    rep.analysed(a)
+    oa = Origins(a, summaries=True)
+    Pa = Pos(a)
+    ins = [(bb, t) for bb, t in a.calls() if callee_res(t).endswith('::insert') and any(term_has(oa.of_operand(x, bb, 'term'), lambda y: y == ('param', 2)) for x in t['args'][1:])]
+    ea = list(switch_edges(a, fx, oa))
+    vacant = [(s_, t_) for s_, t_, cond, lab in ea if lab == 'Vacant' or (lab == 0 and cond[0] == 'discr' and '::Entry<' in (cond[2] or ''))]   # std Entry: Vacant = 0, Occupied = 1
+    ok = bool(ins) and bool(vacant) and any(term_has(oa.of_operand(t['args'][0], bb, 'term'), lambda y: y[0] == 'field' and y[1] == 'available_readers') for bb, t in ins)
+    for s_, t_ in vacant:
+        for r in a.return_blocks():
+            if not Pa.every_path_passes((t_, 0), (r, 'term'), via_pos=[(bb, 'term') for bb, _t in ins]) and (t_, 'term') not in [(bb, 'term') for bb, _t in ins]:
+                ok = False
+    rep.check(ok, 'R11.14', 'add_reader/inserts-when-vacant', 'vacant id => available_readers.insert(reader)',
+              'MessageReceiver::add_reader can return without inserting the reader although its entity id is not taken', a.where())
+    w = fx.find(ev + 'add_local_writer')
+    rep.analysed(w)
+    ow = Origins(w, summaries=True)
+    Pw = Pos(w)
+    ins = []
+    for bb, t in w.calls():
+        if callee_res(t).endswith('::insert') and has_field(ow.of_operand(t['args'][0], bb, 'term'), 'writers'):
+            k = ow.of_operand(t['args'][1], bb, 'term')
+            v = ow.of_operand(t['args'][2], bb, 'term')
+            if term_has(v, lambda x: x[0] == 'call' and x[1].endswith('Writer::new')) and term_has(v, lambda x: x == ('param', 2)) and \
+                    term_has(k, lambda x: x[0] == 'call' and x[1].endswith('Writer::new')) and has_field(k, 'entity_id'):
+                ins.append((bb, 'term'))
+    ok = bool(ins)
+    for r in w.return_blocks():
+        if not Pw.every_path_passes(None, (r, 'term'), via_pos=ins, from_entry=True):
+            ok = False
+    rep.check(ok, 'R11.14', 'add_local_writer/registers', 'writers.insert(writer.entity_id, Writer::new(ingredients)) on every path',
+              'add_local_writer can return without inserting the new Writer into the writers map under its own entity id: the DataWriter exists for the application but its commands, '
+              'timers and ACKNACKs find no writer', w.where())
